@@ -67,6 +67,7 @@ class Stats:
         self.solver_s = 0.0
         self.branch_unknown = 0
         self.denominators = set()
+        self.stop = False  # set by the recorder once enough counterexample candidates exist for this configuration
 
     def merge(self, o: "Stats"):
         self.paths += o.paths
@@ -433,6 +434,8 @@ def explore(fn, stats: Stats | None = None, max_paths=20000):
     work = [[]]
     n = 0
     while work:
+        if stats.stop:
+            break  # counterexamples already in hand: no need to enumerate the remaining paths of this configuration
         prefix = work.pop()
         ctx = Ctx(prefix, stats)
         Ctx.cur = ctx
